@@ -412,7 +412,7 @@ func partC11(a *hcli.Args, rep *report.Report, univName string, u *schema.Univer
 	}
 	// ---- unions: every subset of members set, both directions
 	su := rep.S("unions")
-	su.Bounds = "unions UOne, UTwo, UTwoN, UFour, UFourN: every subset of members set on encode (json, header); documents with 0 / 1 / 2 members, an unknown member, null on decode (json, header)"
+	su.Bounds = "unions UOne, UTwo, UTwoN, UFour, UFourN: every subset of members set on encode (json, header); documents with 0 / 1 / 2+ members in declaration, reverse and rotated key order, an unknown member, null on decode (json, header)"
 	if a.Shard == 0 {
 		for _, un := range []string{"UOne", "UTwo", "UTwoN", "UFour", "UFourN"} {
 			t := u.ByName[un]
@@ -464,8 +464,23 @@ func partC11(a *hcli.Args, rep *report.Report, univName string, u *schema.Univer
 						hd = append(hd, fmt.Sprintf("%s:%s", strings.ReplaceAll(mem.Alias, ".", "."), ror2Of(schema.Base(mem.Type))))
 					}
 				}
-				docs := map[string]string{"json": "{" + strings.Join(js, ",") + "}", "header": "(" + strings.Join(hd, ",") + ")"}
-				for f, doc := range docs {
+				type udoc struct{ f, doc string }
+				docs := []udoc{{"json", "{" + strings.Join(js, ",") + "}"}, {"header", "(" + strings.Join(hd, ",") + ")"}}
+				if count >= 2 {
+					// key order is arbitrary on the wire: the same members in reverse and rotated order
+					rev := func(x []string) []string {
+						out := make([]string, len(x))
+						for i := range x {
+							out[len(x)-1-i] = x[i]
+						}
+						return out
+					}
+					rot := func(x []string) []string { return append(append([]string{}, x[1:]...), x[0]) }
+					docs = append(docs, udoc{"json", "{" + strings.Join(rev(js), ",") + "}"}, udoc{"header", "(" + strings.Join(rev(hd), ",") + ")"},
+						udoc{"json", "{" + strings.Join(rot(js), ",") + "}"}, udoc{"header", "(" + strings.Join(rot(hd), ",") + ")"})
+				}
+				for _, d := range docs {
+					f, doc := d.f, d.doc
 					_, err := decodeDocInto(un, f, doc)
 					su.Evaluations++
 					su.Transitions++
